@@ -357,10 +357,18 @@ class Model:
         }
 
         # Interpolate property_{x;y;z}; mu_r; and epsilon_r; add to dict.
+        # mu_r and epsilon_r are not mapped, they are averaged in log-space
+        # independent of the mapping (except if `log` is provided).
+        log = {} if interpolate_opts is None else interpolate_opts
+        log = log.get('log', True)
         model_inp = {}
         for prop in self._def_properties:
             var = getattr(self, prop)
-            model_inp[prop] = maps.interpolate(values=var, **g2g_inp)
+            if prop in self._properties[:3]:
+                inp = g2g_inp
+            else:
+                inp = {**g2g_inp, 'log': log}
+            model_inp[prop] = maps.interpolate(values=var, **inp)
 
         # Assemble new model.
         return Model(grid, mapping=self.map.name, **model_inp)
@@ -491,11 +499,16 @@ class Model:
         for prop in self._def_properties:
             values = getattr(self, prop)
 
+            # Average in log-space, except if the property is already a log
+            # (mu_r and epsilon_r are not mapped).
+            mapped = prop in self._properties[:3]
+            log = not (mapped and self.map.name.startswith('L'))
+
             if not midpoint:
-                if not self.map.name.startswith('L'):
+                if log:
                     values = np.log10(values)
                 val = np.einsum('ij,ijk->k', imat, values)
-                if not self.map.name.startswith('L'):
+                if log:
                     val = 10**val
             else:
                 val = values[six, siy, :]
